@@ -12,6 +12,7 @@ from ..ref.rlp_hp import hp, hp_decode, rlp_encode
 from ..util import Info, Raised, expect, expect_eq, impl
 
 ID = "C16"
+ATHERIS = True  # thorough tier: coverage-guided second engine over the same strategy/run_case
 LEVEL = "exploration"
 BUDGET = {"quick": 16000, "thorough": 600000}
 RULE = (
